@@ -24,7 +24,7 @@ pub struct Managed {
 }
 
 const NAMES: &[&str] = &["fltr-a", "fltr-b.1", "p_2", "AS65000-in", "X", "fltr-long-name-with-many-parts-0123456789"];
-const ESC_NAMES: &[&str] = &["a&b", "x<y", "q>r", "m&amp;n", "it's", "say \"hi\""];
+const ESC_NAMES: &[&str] = &["a&b", "x<y", "q>r", "m&amp;n", "it's", "say \"hi\"", " lead", "trail "];
 const BAD_ANNOTATIONS: &[&str] = &["error!", "AS-FOO AND", "{ 10.0.0.0/33 }", "", "AS-FOO }", "((AS1)", "{ 10.0.0.0/8 ^+ "];
 
 fn gen_range(r: &mut Prng, fam: u8) -> Range {
@@ -552,7 +552,8 @@ pub fn run_c16(cfg: &Cfg) -> i32 {
     );
     let n = cfg.count(20_000, 2_000_000);
     let names_plain = ["fltr-a", "fltr-b", "p.3", "q_4", "AS65000-in", "zz", "m-7", "n-8", "o-9"];
-    let names_esc = ["a&b", "x<y", "it's"];
+    // names that need escaping, and names whose boundary whitespace is part of the name
+    let names_esc = ["a&b", "x<y", "it's", " lead", "trail ", "in ner", "tab\tx "];
     for i in 0..n {
         let idx = cfg.case_index(i);
         let mut r = cfg.prng("C16", idx);
@@ -593,7 +594,8 @@ pub fn run_c16(cfg: &Cfg) -> i32 {
                     if let Some(extra) = got_names.difference(&want_names).next() {
                         let esc = want.iter().any(|w| xmlstrict::escape_text(&w.0) == **extra || w.0.replace('&', "&amp;").replace('<', "&lt;").replace('>', "&gt;").replace('\'', "&apos;") == **extra);
                         let kind = stmts.iter().find(|s| s.node.kids.iter().any(|k| k.name == "name" && k.text.as_deref() == Some(extra.as_str()))).map_or("?", |s| s.kind);
-                        sig = if esc { "name:not-unescaped".into() } else { format!("selected-but-should-not:{kind}") };
+                        let ws = want.iter().any(|w| w.0 != **extra && w.0.trim() == extra.trim());
+                        sig = if esc { "name:not-unescaped".into() } else if ws { "name:boundary-whitespace-changed".into() } else { format!("selected-but-should-not:{kind}") };
                     } else if let Some(missing) = want_names.difference(&got_names).next() {
                         let kind = stmts.iter().find(|s| s.selected.as_ref().map(|x| &x.0) == Some(*missing)).map_or("?", |s| s.kind);
                         sig = format!("not-selected-but-should:{kind}");
